@@ -13,7 +13,8 @@ PROP = "C06"
 LEVEL = "exploration"
 RULE = ("connection multigraphs over 1-5 simulators placed in arbitrary group trees (depth <= 3, siblings), any mix "
         "of plain / time-shifted / weak (valid) / async edges, self-connections and parallel edges of different "
-        "kinds: exhaustive for 2 simulators (quick) and for 3 simulators with <= 4 edges (thorough), Hypothesis "
+        "kinds: exhaustive for 2 simulators (quick), for 4 simulators in two sibling groups with plain/weak edges "
+        "(quick; nested and uneven placements in thorough) and for 3 simulators with <= 4 edges (thorough), Hypothesis "
         "beyond; independent graph oracle (networkx simple cycles; a cycle is unresolved iff every hop has a "
         "connection that is neither shifted nor weak-with-the-whole-cycle-inside-the-closest-common-group); "
         "run(until=0) must raise ScenarioError iff an unresolved cycle exists, name a real unresolved cycle, and "
@@ -283,6 +284,28 @@ def enum3(max_edges=4):
                 yield {"paths": {k: list(v) for k, v in paths.items()}, "edges": [list(e) for e in combo]}
 
 
+PLACEMENTS4 = [((0,), (0,), (1,), (1,))]
+PLACEMENTS4_THOROUGH = [((0, 0), (0, 0), (0, 1), (0, 1)), ((0,), (0,), (0, 0), (0, 0)), ((0,), (0,), (0,), ())]
+
+
+def enum4(placements):
+    """all graphs over 4 simulators in two groups with plain and weak connections only (no self-connections): per
+    ordered pair none / plain / weak (weak where the two share a group)"""
+    sims = ["A", "B", "C", "D"]
+    pairs = [(a, b) for a in sims for b in sims if a != b]
+    for pl in placements:
+        paths = dict(zip(sims, pl))
+        per_pair = []
+        for s, d in pairs:
+            opts = [None, "plain"]
+            if reftime.common(paths[s], paths[d]) >= 2:
+                opts.append("weak")
+            per_pair.append([(s, d, o) for o in opts])
+        for combo in itertools.product(*per_pair):
+            edges = [[s, d, k, "ti"] for s, d, k in combo if k]
+            yield {"paths": {k: list(v) for k, v in paths.items()}, "edges": edges}
+
+
 def shards(tier, seed):
     n = core.NPROC
     return [dict(prop=PROP, tier=tier, seed=seed, shard=i, nshards=n) for i in range(n)]
@@ -293,6 +316,16 @@ def shard(prop, tier, seed, shard, nshards):
     i = 0
     complete = True
     for case in enum2():
+        i += 1
+        if i % nshards != shard:
+            continue
+        if acc.out_of_time():
+            complete = False
+            break
+        for f in check_case(case, acc):
+            if len(acc.failures) < 20:
+                acc.failures.append(f)
+    for case in enum4(PLACEMENTS4 if tier == "quick" else PLACEMENTS4 + PLACEMENTS4_THOROUGH):
         i += 1
         if i % nshards != shard:
             continue
